@@ -132,6 +132,30 @@ class Checked:
         self.exc = None
 
 
+_STACK = []              # (target, code object) of the functions under contract whose body is running with its precondition true
+
+
+def pre_holds(con, fn, args=(), kwargs=None):
+    """Only the precondition of `con` on this call (no call of fn)."""
+    try:
+        ba = inspect.signature(fn).bind(*args, **dict(kwargs or {}))
+        ba.apply_defaults()
+        env = dict(ba.arguments)
+        g = native_globals()
+        for p, value in con.fix.items():
+            if env.get(p) != value:
+                return False
+        for r in con.requires:
+            cl = Clause(r)
+            if cl.smt_only:
+                continue
+            if not eval(cl.code, {**g, **env}):
+                return False
+        return True
+    except Exception:  # noqa
+        return False
+
+
 def check_call(con, fn, args=(), kwargs=None, self_obj=None, reraise=False):
     kwargs = dict(kwargs or {})
     out = Checked()
@@ -161,7 +185,7 @@ def check_call(con, fn, args=(), kwargs=None, self_obj=None, reraise=False):
             out.pre_ok = False
             out.errors.append(('requires', r, 'precondition raised %s: %s' % (type(e).__name__, e)))
             return out
-    ens = [Clause(e) for e in con.ensures]
+    ens = [Clause(e) for e in list(con.ensures) + list(getattr(con, 'native_ensures', ()))]
     raises = {en: (Clause(sp['when']) if sp.get('when') else None, sp) for en, sp in con.raises.items()}
     olds = {}
     for cl in ens + [c for c, _ in raises.values() if c is not None]:
@@ -185,12 +209,23 @@ def check_call(con, fn, args=(), kwargs=None, self_obj=None, reraise=False):
             except Exception as e:  # noqa
                 when_vals[en] = None
     scope = _EventScope(con, fn, g)
+    n_callpre = len(CALLPRE)
+    _STACK.append((con.target, getattr(fn, '__code__', None)))
     try:
-        with scope:
-            if self_obj is not None:
-                out.result = fn(self_obj, *args, **kwargs)
-            else:
-                out.result = fn(*args, **kwargs)
+        try:
+            with scope:
+                if self_obj is not None:
+                    out.result = fn(self_obj, *args, **kwargs)
+                else:
+                    out.result = fn(*args, **kwargs)
+        finally:
+            _STACK.pop()
+            # a callee under contract was called outside every one of its preconditions although this function's own
+            # precondition holds: the (discharged) call-pre obligation of this function is violated on this input
+            for tgt, callee, clause in CALLPRE[n_callpre:]:
+                if tgt == con.target:
+                    out.violations.append(('call-pre', '%s: %s' % (callee, clause), 'callee called outside its precondition'))
+            del CALLPRE[n_callpre:]
         for kind, text, detail in scope.bad:
             (out.errors if kind == 'error' else out.violations).append((kind, text, detail))
     except Exception as e:  # noqa
@@ -217,6 +252,7 @@ def check_call(con, fn, args=(), kwargs=None, self_obj=None, reraise=False):
         if cl.smt_only:
             continue
         loc = dict(env)
+        loc.update(scope.ghosts)          # final values of the ghost variables
         loc['result'] = out.result
         for name, _ in cl.old_codes:
             loc[name] = olds[(id(cl), name)]
@@ -299,7 +335,15 @@ def witness_run(con, limit=400):
     except Exception as e:  # noqa
         out['error'] = 'cannot import target: %s' % e
         return out
-    for ex in con.examples():
+    it = iter(con.examples())
+    while True:
+        try:
+            ex = next(it)
+        except StopIteration:
+            break
+        except Exception as e:  # noqa: the preparation of an example ran repository code that failed (never a verdict)
+            out.setdefault('harness_errors', []).append('example generator: %s: %s' % (type(e).__name__, e))
+            break
         if out['examples'] >= limit:
             break
         out['examples'] += 1
@@ -338,6 +382,7 @@ def _describe(ex):
 
 # ================================================================================================ installation
 VIOLATIONS = []          # drained by the bounded-tier runner after every case
+CALLPRE = []             # (caller target, callee target, failing clause) recorded by monitored callees
 CALLS = {}
 STATS = {}               # target -> number of monitored evaluations
 _INSTALLED = []
@@ -374,6 +419,12 @@ class _EventScope:
                 orig = getattr(mod, label)
                 setattr(mod, label, self._wrap(orig, label, method=False))
                 self.patches.append((mod, label, orig))
+            elif '.' in self.con.qualname and hasattr(getattr(mod, self.con.qualname.split('.')[0], None), label):
+                # a method of the same class (self.add_fragment(...) inside MoleculeSampler.sample)
+                cls = getattr(mod, self.con.qualname.split('.')[0])
+                orig = cls.__dict__.get(label, getattr(cls, label))
+                setattr(cls, label, self._wrap(getattr(cls, label), label, method=True))
+                self.patches.append((cls, label, orig))
         return self
 
     def __exit__(self, *a):
@@ -426,6 +477,22 @@ class _EventScope:
         return wrapper
 
 
+def _fitting_contracts(cons, bound):
+    """The variants whose declared parameter types fit the actual arguments (all of them when none fits)."""
+    out = []
+    for con in cons:
+        ok = True
+        for p, t in con.types.items():
+            v = bound.get(p)
+            if t.startswith('Dict') and not isinstance(v, dict):
+                ok = False
+            if t.startswith('List') and not isinstance(v, (list, tuple)):
+                ok = False
+        if ok:
+            out.append(con)
+    return out or list(cons)
+
+
 def _select_contract(cons, bound):
     """Pick the variant whose declared parameter types fit the actual arguments."""
     if len(cons) == 1:
@@ -459,7 +526,17 @@ def _make_monitored(fn, cons, is_method):
             ba.apply_defaults()
         except TypeError:
             return fn(*args, **kwargs)
-        con = _select_contract(cons, ba.arguments)
+        cands = _fitting_contracts(cons, ba.arguments)
+        con = cands[0]
+        if len(cands) > 1 or _STACK:
+            holding = [c for c in cands if pre_holds(c, fn, args, kwargs)]
+            if holding:
+                con = holding[0]
+            elif _STACK and not any(t == target and c.trusted for (t, v), c in C.REGISTRY.items()):
+                # (a callee that also has an ASSUMED contract variant is excluded: the caller may have been verified against that one)
+                caller = sys._getframe(1)
+                if caller.f_code is _STACK[-1][1]:
+                    CALLPRE.append((_STACK[-1][0], target, '; '.join(cands[0].requires)[:300]))
         _ACTIVE.add(target)
         try:
             STATS[target] = STATS.get(target, 0) + 1
